@@ -53,6 +53,10 @@ Definition StrictlyContains (d : dom) h (x y : Ps d) := strictly_contains_ps (dD
    base-level operation mapped over the disjuncts, `reduced' cleared *)
 Definition ClosureAssign (d : dom) (closure : dD d -> dD d) : Ps d -> Ps d := MapAssign d closure false.
 Definition FoldAssign (d : dom) (fold : dD d -> dD d) : Ps d -> Ps d := MapAssign d fold false.
+Definition Concatenate (d : dom) h conc ubx uby (y s : Ps d) : Ps d :=
+  concatenate_ps (dD d) (dent d) (dbot d) (dub d) conc ubx uby h y s.
+(* the abandon flag found raised at every poll (the harness raises it for the duration of a call) *)
+Definition always : nat -> bool := fun _ => true.
 Definition CheckReduced (d : dom) (s : Ps d) : bool := check_omega_reduced (dD d) (dent d) (dbot d) s.
 
 Section Thms.
@@ -120,6 +124,25 @@ Qed.
 (* closure and fold (as fixed): the flag tells the truth afterwards, and they act on the union disjunct-wise *)
 Theorem T_closure_fold_flag_truth cl s : Wf d (ClosureAssign d cl s) /\ Wf d (FoldAssign d cl s).
 Proof. split; apply map_reset_wf. Qed.
+
+(* concatenate_assign: under ANY schedule of the abandon flag (hurry-up branch: one product of the joins of the remaining
+   disjuncts) no point of the concatenation is lost; without abandonment the result is exact and the flag stays set *)
+Theorem T_concatenate_never_loses conc ubx uby (Rel : dP d -> dP d -> dP d -> Prop) h y s q :
+  (forall a b p1 p2 q, dden d a p1 -> dden d b p2 -> Rel p1 p2 q -> dden d (conc a b) q) ->
+  (forall a b p, dden d a p \/ dden d b p -> dden d (ubx a b) p) ->
+  (forall a b p, dden d a p \/ dden d b p -> dden d (uby a b) p) ->
+  (exists p1 p2, Den d s p1 /\ Den d y p2 /\ Rel p1 p2 q) -> Den d (Concatenate d h conc ubx uby y s) q.
+Proof. intros A B C. apply concatenate_never_loses; try apply L; assumption. Qed.
+Theorem T_concatenate_exact conc ubx uby (Rel : dP d -> dP d -> dP d -> Prop) y s q :
+  (forall a b p1 p2 q, dden d a p1 -> dden d b p2 -> Rel p1 p2 q -> dden d (conc a b) q) ->
+  (forall a b q, dden d (conc a b) q -> exists p1 p2, dden d a p1 /\ dden d b p2 /\ Rel p1 p2 q) ->
+  (forall a b p, dden d a p \/ dden d b p -> dden d (ubx a b) p) ->
+  (forall a b p, dden d a p \/ dden d b p -> dden d (uby a b) p) ->
+  (Den d (Concatenate d never conc ubx uby y s) q <-> exists p1 p2, Den d s p1 /\ Den d y p2 /\ Rel p1 p2 q) /\
+  Flag d (Concatenate d never conc ubx uby y s) = true.
+Proof.
+  intros A B C E. split; [apply (concatenate_exact _ _ (dden d)); try apply L; assumption|apply concatenate_flag].
+Qed.
 
 (* flag truth: every modelled operation returns a state whose flag, when set, tells the truth *)
 Theorem T_flag_truth :
@@ -195,6 +218,22 @@ Example fs_example_run :
 Proof.
   split; [vm_compute; reflexivity|]. split; [vm_compute; reflexivity|]. split; [intros H; discriminate|].
   split; [vm_compute; reflexivity|]. split; [vm_compute; reflexivity|]. split; vm_compute; reflexivity.
+Qed.
+
+(* the hypotheses of the concatenation theorems are satisfiable: "concatenation" of naturals p1.p2 := 10*p1 + p2 *)
+Definition fs_conc (a b : list nat) : list nat := flat_map (fun x => map (fun y => 10 * x + y) b) a.
+Example fs_concatenate_hypotheses :
+  (forall a b p1 p2 q, dden fs_dom a p1 -> dden fs_dom b p2 -> q = 10 * p1 + p2 -> dden fs_dom (fs_conc a b) q) /\
+  (forall a b q, dden fs_dom (fs_conc a b) q -> exists p1 p2, dden fs_dom a p1 /\ dden fs_dom b p2 /\ q = 10 * p1 + p2) /\
+  seq _ (Concatenate fs_dom never fs_conc (dub fs_dom) (dub fs_dom) (mk_ps _ [[1]; [2]; [3]] true) (mk_ps _ [[4]; [5]; [6]] true))
+    = [[41]; [42]; [43]; [51]; [52]; [53]; [61]; [62]; [63]] /\
+  seq _ (Concatenate fs_dom always fs_conc (dub fs_dom) (dub fs_dom) (mk_ps _ [[1]; [2]; [3]] true) (mk_ps _ [[4]; [5]; [6]] true))
+    = [[41]; [42]; [43]; [51; 52; 53; 61; 62; 63]].
+Proof.
+  split; [|split; [|split; vm_compute; reflexivity]]; cbn.
+  - intros a b p1 p2 q Ha Hb ->. unfold fs_conc. apply in_flat_map. exists p1. split; [exact Ha|]. now apply (in_map (fun y => 10 * p1 + y)).
+  - intros a b q H. unfold fs_conc in H. apply in_flat_map in H. destruct H as [x [Hx H]]. apply in_map_iff in H.
+    destruct H as [y0 [<- Hy]]. exists x, y0. auto.
 Qed.
 
 (* ------------------------------------------------------------------------------------------ *)
